@@ -450,3 +450,5 @@ CHECKS["C07"]["drivers"].append({"module": "harness.drv_gemap", "trace": "Trace_
 
 # advisory: lineage of the individuals evaluated by RandomSearch / OnePlusOne / HC (what the algorithms are documented to do)
 CHECKS["C12"]["drivers"].append({"module": "harness.drv_lineage", "trace": "Trace_Lineage", "advisory": True})
+# advisory: the pool each tournament draws its participants from (documented: the population)
+CHECKS["C17"]["drivers"].append({"module": "harness.drv_tournament", "trace": "Trace_Tournament", "advisory": True})
